@@ -99,6 +99,7 @@ namespace vh {
         std::string sub;    // sub-workload name
     };
     extern RunCtx* g_ctx;
+    extern bool g_gdb_on_fail;
 
     // named probe counters → result line
     void probe(char const* name, uint64_t n = 1);
@@ -112,7 +113,7 @@ namespace vh {
     // hook run by the failure path (deadlock/budget/crash) to add a state dump
     extern std::string (*g_dump_hook)();
 
-    std::string fmt(char const* f, ...) __attribute__((format(printf, 1, 2)));
+    std::string sfmt(char const* f, ...) __attribute__((format(printf, 1, 2)));
 
     // draws the simulator configuration into params and returns it
     sim_config draw_sim_config(RunCtx& ctx, uint64_t est_len, unsigned allowed_faults);
